@@ -88,6 +88,13 @@ claim("C07",
       "only as far as listed in the evidence.",
       "DESIGN.md §4 C07")
 
+claim("C04",
+      "Proof of the per-handler safety facts reached so far: the resume bitfield is trusted (pieces marked done without "
+      "verification) only when no file was missing at allocation. Partial: liveness (every command returns, convergence "
+      "with a seed), timing, and the remaining lifecycle invariants of DESIGN.md C04 are not yet under contract; see evidence "
+      "for the exact obligations.",
+      "DESIGN.md §4 C04")
+
 na("C10", "liveness/progress over unbounded schedules of several goroutines: a function contract cannot state fairness or progress measures (DESIGN.md §4 C10)")
 na("C20", "data races and lock-ups quantify over schedules; the contracts are sequential and assume the single-owner discipline C20 asks to prove (DESIGN.md §4 C20)")
 for p in ["C01", "C02", "C04", "C05", "C06", "C07", "C08", "C09", "C11", "C12", "C13", "C14", "C15", "C17", "C18", "C19"]:
